@@ -1,7 +1,404 @@
 package ledger
 
-import "pgregory.net/rapid"
+import (
+	"fmt"
+	"math/big"
+	"sort"
 
-func (w *world) actViews(t *rapid.T) {}
+	"pgregory.net/rapid"
 
-func (w *world) checkViews(t *rapid.T, n *node, after string) {}
+	"github.com/skycoin/skycoin/src/cipher"
+	"github.com/skycoin/skycoin/src/coin"
+	"github.com/skycoin/skycoin/src/visor"
+	"github.com/skycoin/skycoin/src/visor/blockdb"
+	"github.com/skycoin/skycoin/src/visor/dbutil"
+	"github.com/skycoin/skycoin/src/visor/historydb"
+
+	ref "verif/harness/internal/ref/ledger"
+	"verif/harness/internal/ref/rules"
+	"verif/harness/internal/ref/txref"
+)
+
+var unknownAddr = cipher.Address{Version: 0, Key: cipher.Ripemd160{9, 9, 9}}
+
+// actViews queries one node for a random address subset.
+func (w *world) actViews(t *rapid.T) {
+	n := w.pickNode(t, "node")
+	w.checkViews(t, n, "views")
+}
+
+// actRebuild erases the index / history progress markers and restarts the node, which forces the
+// address index and the history database to be rebuilt from the stored blocks.
+func (w *world) actRebuild(t *rapid.T) {
+	n := w.pickNode(t, "node")
+	what := rapid.SampledFrom([]string{"addr_index", "history", "both"}).Draw(t, "what")
+	err := n.db.Update("verif erase markers", func(tx *dbutil.Tx) error {
+		if what != "history" {
+			if err := dbutil.Delete(tx, blockdb.UnspentMetaBkt, []byte("addr_index_height")); err != nil {
+				return err
+			}
+		}
+		if what != "addr_index" {
+			if err := dbutil.Delete(tx, historydb.HistoryMetaBkt, []byte("parsed_height")); err != nil {
+				return err
+			}
+		}
+		return nil
+	})
+	if err != nil {
+		t.Fatalf("erase markers: %v", err)
+	}
+	n.close()
+	n.open(t)
+	n.m.RemoveInvalid()
+	w.logf("%s.Rebuild(%s)", n.name, what)
+	w.stats["rebuild"]++
+	w.checkNode(t, n, "rebuild")
+	w.checkViews(t, n, "rebuild")
+}
+
+func sortedIDs(uxs coin.UxArray) []string {
+	out := make([]string, len(uxs))
+	for i, ux := range uxs {
+		h := txref.UxBodyID(ux.Body)
+		out[i] = fmt.Sprintf("%s/%d/%d", h.Hex(), ux.Head.Time, ux.Head.BkSeq)
+	}
+	sort.Strings(out)
+	return out
+}
+
+func (w *world) checkViews(t *rapid.T, n *node, after string) {
+	fail := func(format string, a ...interface{}) {
+		t.Fatalf("%s view check after %s: %s\n history:\n  %s", n.name, after, fmt.Sprintf(format, a...), w.history())
+	}
+	m := n.m
+	headTime := m.Head().Head.Time
+	// --- per-address unspents, address count
+	byAddr := map[cipher.Address]coin.UxArray{}
+	for _, ux := range m.Utxo {
+		byAddr[ux.Body.Address] = append(byAddr[ux.Body.Address], ux)
+	}
+	cnt, err := n.v.AddressCount()
+	if err != nil {
+		fail("AddressCount: %v", err)
+	}
+	if cnt != uint64(len(byAddr)) {
+		fail("AddressCount=%d, model has %d addresses with unspent outputs", cnt, len(byAddr))
+	}
+	query := append(append([]cipher.Address{}, allAddrs...), unknownAddr, allAddrs[1]) // includes an unknown address and a duplicate
+	got, err := n.v.GetUnspentsOfAddrs(query)
+	if err != nil {
+		fail("GetUnspentsOfAddrs: %v", err)
+	}
+	for _, a := range query {
+		g, wnt := sortedIDs(got[a]), sortedIDs(byAddr[a])
+		if fmt.Sprint(g) != fmt.Sprint(wnt) {
+			fail("unspents of %s: node %v, model %v", a, g, wnt)
+		}
+	}
+	for a := range got {
+		if len(got[a]) > 0 && len(byAddr[a]) == 0 {
+			fail("GetUnspentsOfAddrs returned outputs for %s which owns none", a)
+		}
+	}
+	// --- every output ever created: history record
+	for id, seq := range m.Created {
+		hux, ht, err := n.v.GetUxOutByID(id)
+		if err != nil || hux == nil {
+			fail("GetUxOutByID(%s) created in block %d: %v %v", shortHash(id), seq, hux, err)
+		}
+		if ht != headTime {
+			fail("GetUxOutByID head time %d, model %d", ht, headTime)
+		}
+		if sp, spent := m.Spent[id]; spent {
+			if hux.SpentBlockSeq != sp.BlockSeq || hux.SpentTxnID != sp.Txn {
+				fail("output %s: history says spent in block %d by %s, model: block %d by %s", shortHash(id), hux.SpentBlockSeq, shortHash(hux.SpentTxnID), sp.BlockSeq, shortHash(sp.Txn))
+			}
+			if hux.Out != sp.Ux {
+				fail("output %s: history record %+v differs from the created output %+v", shortHash(id), hux.Out, sp.Ux)
+			}
+		} else {
+			if hux.SpentBlockSeq != 0 || hux.SpentTxnID != (cipher.SHA256{}) {
+				fail("output %s is unspent but history says spent in block %d", shortHash(id), hux.SpentBlockSeq)
+			}
+			if hux.Out != m.Utxo[id] {
+				fail("output %s: history record %+v differs from the unspent output %+v", shortHash(id), hux.Out, m.Utxo[id])
+			}
+		}
+	}
+	if hux, _, _ := n.v.GetUxOutByID(cipher.SHA256{0xee, 1}); hux != nil {
+		fail("GetUxOutByID(unknown) = %v", hux)
+	}
+	// --- confirmed transactions: by hash and per address
+	type ctx struct {
+		txn coin.Transaction
+		seq uint64
+		t   uint64
+	}
+	confirmed := map[cipher.SHA256]ctx{}
+	addrTxns := map[cipher.Address]map[cipher.SHA256]bool{}
+	touch := func(a cipher.Address, h cipher.SHA256) {
+		if addrTxns[a] == nil {
+			addrTxns[a] = map[cipher.SHA256]bool{}
+		}
+		addrTxns[a][h] = true
+	}
+	for _, b := range m.Blocks {
+		for i := range b.Body.Transactions {
+			txn := b.Body.Transactions[i]
+			h := txref.TxnHash(&txn)
+			confirmed[h] = ctx{txn, b.Head.BkSeq, b.Head.Time}
+			for _, o := range txn.Out {
+				touch(o.Address, h)
+			}
+			for _, in := range txn.In {
+				if sp, ok := m.Spent[in]; ok {
+					touch(sp.Ux.Body.Address, h)
+				}
+			}
+		}
+	}
+	num, err := n.v.GetTransactionsNum()
+	if err != nil {
+		fail("GetTransactionsNum: %v", err)
+	}
+	if num != uint64(len(confirmed)) {
+		fail("GetTransactionsNum=%d, chain holds %d transactions", num, len(confirmed))
+	}
+	for h, c := range confirmed {
+		tx, err := n.v.GetTransaction(h)
+		if err != nil || tx == nil {
+			fail("GetTransaction(%s) confirmed in block %d: %v %v", shortHash(h), c.seq, tx, err)
+		}
+		if !tx.Status.Confirmed || tx.Status.BlockSeq != c.seq || tx.Status.Height != m.Head().Head.BkSeq-c.seq+1 || tx.Time != c.t {
+			fail("GetTransaction(%s): status %+v time %d, model: block %d time %d head %d", shortHash(h), tx.Status, tx.Time, c.seq, c.t, m.Head().Head.BkSeq)
+		}
+		if txref.TxnHash(&tx.Transaction) != h {
+			fail("GetTransaction(%s) returned another transaction", shortHash(h))
+		}
+	}
+	for h := range m.Pool {
+		tx, err := n.v.GetTransaction(h)
+		if err != nil || tx == nil || tx.Status.Confirmed {
+			fail("GetTransaction(%s) pooled: %+v %v", shortHash(h), tx, err)
+		}
+	}
+	for _, a := range query {
+		txs, _, err := n.v.GetTransactions([]visor.TxFilter{visor.NewAddrsFilter([]cipher.Address{a}), visor.NewConfirmedTxFilter(true)}, visor.AscOrder, nil)
+		if err != nil {
+			fail("GetTransactions(confirmed, %s): %v", a, err)
+		}
+		seen := map[cipher.SHA256]bool{}
+		prev := uint64(0)
+		for _, tx := range txs {
+			h := txref.TxnHash(&tx.Transaction)
+			if seen[h] {
+				fail("GetTransactions(%s) lists %s twice", a, shortHash(h))
+			}
+			seen[h] = true
+			if !addrTxns[a][h] {
+				fail("GetTransactions(%s) lists %s which does not involve the address", a, shortHash(h))
+			}
+			if tx.Status.BlockSeq < prev {
+				fail("GetTransactions(%s) not ordered by block", a)
+			}
+			prev = tx.Status.BlockSeq
+		}
+		if len(seen) != len(addrTxns[a]) {
+			fail("GetTransactions(confirmed, %s) lists %d transactions, the chain has %d involving it", a, len(seen), len(addrTxns[a]))
+		}
+	}
+	// all transactions (confirmed + pooled) for an address set: must not fail or panic, results must involve the addresses
+	{
+		var txs []visor.Transaction
+		var err error
+		sub := []cipher.Address{query[1], query[2], unknownAddr}
+		if p := call(func() {
+			txs, _, err = n.v.GetTransactions([]visor.TxFilter{visor.NewAddrsFilter(sub)}, visor.AscOrder, nil)
+		}); p != nil {
+			fail("GetTransactions(address filter, pool of %d) panicked: %v", len(m.Pool), p)
+		}
+		if err != nil {
+			fail("GetTransactions(address filter): %v", err)
+		}
+		for _, tx := range txs {
+			h := txref.TxnHash(&tx.Transaction)
+			ok := false
+			for _, a := range sub {
+				if addrTxns[a][h] {
+					ok = true
+				}
+				for _, o := range tx.Transaction.Out {
+					if o.Address == a {
+						ok = true
+					}
+				}
+				for _, in := range tx.Transaction.In {
+					if ux, found := m.Utxo[in]; found && ux.Body.Address == a {
+						ok = true
+					}
+				}
+			}
+			if !ok {
+				fail("GetTransactions(address filter) returned %s which does not involve any queried address", shortHash(h))
+			}
+		}
+	}
+	// --- balances
+	// pooled transactions whose inputs are no longer unspent can never confirm; predicted balances ignore them
+	spentByPool := map[cipher.SHA256]bool{}
+	var livePool []coin.Transaction
+	for _, e := range m.Pool {
+		if _, ok := m.Resolve(&e.Txn); !ok {
+			w.stats["balance_with_unresolvable_pool"]++
+			continue
+		}
+		livePool = append(livePool, e.Txn)
+		for _, in := range e.Txn.In {
+			spentByPool[in] = true
+		}
+	}
+	var bps []walletBalancePair
+	var berr error
+	if p := call(func() { bps, berr = balances(n.v, query) }); p != nil {
+		fail("GetBalanceOfAddresses panicked: %v", p)
+	}
+	if accrualProblem(m, query, headTime) {
+		// some queried output's coin hours cannot be computed at the head time (64-bit overflow):
+		// the query may fail as a whole; only a crash would be a finding
+		w.stats["balance_with_hour_overflow"]++
+	} else {
+		if berr != nil {
+			fail("GetBalanceOfAddresses: %v", berr)
+		}
+		for i, a := range query {
+			coins, pcoins := new(big.Int), new(big.Int)
+			hours, phours := new(big.Int), new(big.Int)
+			hoursKnown := true
+			for _, ux := range byAddr[a] {
+				coins.Add(coins, bu(ux.Body.Coins))
+				v, c := rules.Accrued(ux, headTime)
+				if c != rules.AccrueOK {
+					hoursKnown = false
+				} else {
+					hours.Add(hours, v)
+				}
+				if !spentByPool[txref.UxBodyID(ux.Body)] {
+					pcoins.Add(pcoins, bu(ux.Body.Coins))
+					if c == rules.AccrueOK {
+						phours.Add(phours, v)
+					}
+				}
+			}
+			for _, ptx := range livePool {
+				for _, o := range ptx.Out {
+					if o.Address == a {
+						pcoins.Add(pcoins, bu(o.Coins))
+						phours.Add(phours, bu(o.Hours))
+					}
+				}
+			}
+			if bu(bps[i].cc).Cmp(coins) != 0 {
+				fail("confirmed coins of %s: node %d, model %s", a, bps[i].cc, coins)
+			}
+			if len(byAddr[a]) > 0 && pcoins.Cmp(two64) < 0 && bu(bps[i].pc).Cmp(pcoins) != 0 {
+				fail("predicted coins of %s: node %d, model %s (pool %d txns)", a, bps[i].pc, pcoins, len(m.Pool))
+			}
+			if hoursKnown && hours.Cmp(two64) < 0 && bu(bps[i].ch).Cmp(hours) != 0 {
+				fail("confirmed hours of %s: node %d, model %s", a, bps[i].ch, hours)
+			}
+			if hoursKnown && len(byAddr[a]) > 0 && phours.Cmp(two64) < 0 && bu(bps[i].ph).Cmp(phours) != 0 {
+				fail("predicted hours of %s: node %d, model %s", a, bps[i].ph, phours)
+			}
+		}
+		w.stats["balance_checked"]++
+	}
+	// --- block queries
+	headSeq := m.Head().Head.BkSeq
+	for _, since := range []uint64{0, headSeq / 2, headSeq, headSeq + 3} {
+		for _, ct := range []uint64{0, 1, 3, 1000} {
+			bl, err := n.v.GetSignedBlocksSince(since, ct)
+			if err != nil {
+				fail("GetSignedBlocksSince(%d,%d): %v", since, ct, err)
+			}
+			want := uint64(0)
+			if headSeq > since {
+				want = headSeq - since
+			}
+			if want > ct {
+				want = ct
+			}
+			if uint64(len(bl)) != want {
+				fail("GetSignedBlocksSince(%d,%d) returned %d blocks, want %d", since, ct, len(bl), want)
+			}
+			for j, b := range bl {
+				if txref.HeaderHash(b.Head) != txref.HeaderHash(m.Blocks[since+1+uint64(j)].Head) {
+					fail("GetSignedBlocksSince(%d,%d)[%d] is not block %d of the chain", since, ct, j, since+1+uint64(j))
+				}
+			}
+		}
+	}
+	last, err := n.v.GetLastBlocks(3)
+	if err != nil {
+		fail("GetLastBlocks: %v", err)
+	}
+	wantLast := 3
+	if len(m.Blocks) < 3 {
+		wantLast = len(m.Blocks)
+	}
+	if len(last) != wantLast {
+		fail("GetLastBlocks(3) returned %d, want %d", len(last), wantLast)
+	}
+	for j, b := range last {
+		if txref.HeaderHash(b.Head) != txref.HeaderHash(m.Blocks[len(m.Blocks)-wantLast+j].Head) {
+			fail("GetLastBlocks(3)[%d] wrong block", j)
+		}
+	}
+	hb, err := n.v.GetSignedBlockByHash(txref.HeaderHash(m.Head().Head))
+	if err != nil || hb == nil || hb.Head.BkSeq != headSeq {
+		fail("GetSignedBlockByHash(head): %v %v", hb, err)
+	}
+	w.stats["views_checked"]++
+}
+
+type walletBalancePair struct{ cc, ch, pc, ph uint64 }
+
+func balances(v *visor.Visor, addrs []cipher.Address) ([]walletBalancePair, error) {
+	bps, err := v.GetBalanceOfAddresses(addrs)
+	if err != nil {
+		return nil, err
+	}
+	out := make([]walletBalancePair, len(bps))
+	for i, b := range bps {
+		out[i] = walletBalancePair{b.Confirmed.Coins, b.Confirmed.Hours, b.Predicted.Coins, b.Predicted.Hours}
+	}
+	return out, nil
+}
+
+// accrualProblem: does any unspent output of the queried addresses have accrued hours that do not fit 64 bits?
+func accrualProblem(m *ref.Model, addrs []cipher.Address, headTime uint64) bool {
+	set := map[cipher.Address]bool{}
+	for _, a := range addrs {
+		set[a] = true
+	}
+	sum := map[cipher.Address]*big.Int{}
+	for _, ux := range m.Utxo {
+		if !set[ux.Body.Address] {
+			continue
+		}
+		v, c := rules.Accrued(ux, headTime)
+		if c != rules.AccrueOK {
+			return true
+		}
+		if sum[ux.Body.Address] == nil {
+			sum[ux.Body.Address] = new(big.Int)
+		}
+		sum[ux.Body.Address].Add(sum[ux.Body.Address], v)
+	}
+	for _, s := range sum {
+		if s.Cmp(two64) >= 0 {
+			return true
+		}
+	}
+	return false
+}
